@@ -36,10 +36,12 @@ const (
 	c06CtxStringsMap
 	c06CtxOverflowCaughtCatch
 	c06CtxOverflowCaughtFinally
+	c06CtxChildInnerTry
+	c06CtxValueStackRecursion
 	c06NumCtx
 )
 
-var c06CtxNames = []string{"plain", "callee", "child-vm", "child-of-child", "finally-pending-return", "catch", "frame-edge", "stack-edge", "wide-calls", "strings.Map-callback", "frame-overflow-caught-in-frame", "frame-overflow-through-finally"}
+var c06CtxNames = []string{"plain", "callee", "child-vm", "child-of-child", "finally-pending-return", "catch", "frame-edge", "stack-edge", "wide-calls", "strings.Map-callback", "frame-overflow-caught-in-frame", "frame-overflow-through-finally", "child-vm-inner-try", "value-stack-recursion"}
 
 // sites: expression sites can sit inside wide literals; statement sites cannot
 var c06Sites = []struct {
@@ -116,6 +118,12 @@ func c06Script(probes []c06Probe) string {
 			body = fmt.Sprintf("\tvar r%[1]d\n\tr%[1]d = func() {\n\t\ttry {\n\t\t\treturn r%[1]d() + 1\n\t\t} catch {\n\t\t\treturn 0\n\t\t}\n\t}\n\tlog(\"r\", r%[1]d() > 0)\n\t%[2]s\n", k, stmt)
 		case c06CtxOverflowCaughtFinally:
 			body = fmt.Sprintf("\tn%[1]d := 0\n\tvar r%[1]d\n\tr%[1]d = func() {\n\t\ttry {\n\t\t\treturn r%[1]d() + 1\n\t\t} finally {\n\t\t\tn%[1]d++\n\t\t}\n\t}\n\ttry {\n\t\tlog(\"r\", r%[1]d())\n\t} catch {\n\t\tlog(\"of\", n%[1]d > 0)\n\t}\n\t%[2]s\n", k, stmt)
+		case c06CtxChildInnerTry:
+			// the handler that must receive the fault sits inside the function that runs on the child VM
+			body = fmt.Sprintf("\tf%[1]d := func() {\n\t\ttry {\n\t\t\t%[2]s\n\t\t\tlog(\"ia%[1]d\")\n\t\t} catch {\n\t\t\tlog(\"ic%[1]d\")\n\t\t} finally {\n\t\t\tlog(\"if%[1]d\")\n\t\t}\n\t\treturn 0\n\t}\n\tlog(\"r\", call(f%[1]d))\n", k, stmt)
+		case c06CtxValueStackRecursion:
+			// the value stack is exhausted (several slots per call) before the frame limit, under an active handler
+			body = fmt.Sprintf("\tvar v%[1]d\n\tv%[1]d = func(n, a, b, c) { return 1 + v%[1]d(n + 1, a, b, c) }\n\ttry {\n\t\tlog(\"r\", v%[1]d(0, 1, 2, 3))\n\t} catch {\n\t\tlog(\"vo%[1]d\")\n\t}\n\t%[2]s\n", k, stmt)
 		case c06CtxStringsMap:
 			body = fmt.Sprintf("\tlog(import(\"strings\").Map(func(c) {\n\t\t%s\n\t\treturn c\n\t}, \"ab\"))\n", stmt)
 		}
@@ -138,7 +146,7 @@ const c06Fixed2Want = "error=error(IndexOutOfBoundsError:\"3\") hist=[]"
 
 func c06Run(rc *sim.RunCtx) {
 	t := rc.T
-	panicKinds := []sim.FaultKind{sim.FPanicStr, sim.FPanicErr, sim.FPanicRT, sim.FPanicObj}
+	panicKinds := []sim.FaultKind{sim.FPanicStr, sim.FPanicErr, sim.FPanicRT, sim.FPanicObj, sim.FPanicNilErr}
 	n := 1 + t.Draw(4)
 	probes := make([]c06Probe, n)
 	spec := &sim.WorldSpec{Name: "w"}
@@ -343,6 +351,12 @@ func c06Run(rc *sim.RunCtx) {
 			return c
 		}
 		check := func(k int) bool {
+			if probes[k].ctx == c06CtxChildInnerTry {
+				// delivered to the try statement inside the child VM's function: its catch and finally once, nothing after
+				// the site; the probe's own catch is not entered
+				return count(fmt.Sprintf("ic%d", k)) == 1 && count(fmt.Sprintf("if%d", k)) == 1 && count(fmt.Sprintf("ia%d", k)) == 0 &&
+					count(fmt.Sprintf("c%d", k)) == 0 && count(fmt.Sprintf("f%d", k)) == 1 && count(fmt.Sprintf("a%d", k)) == 1
+			}
 			return count(fmt.Sprintf("c%d", k)) == 1 && count(fmt.Sprintf("f%d", k)) == 1 && count(fmt.Sprintf("a%d", k)) == 0 && count(fmt.Sprintf("b%d", k)) == 1
 		}
 		for _, f := range faulted.firedOps {
@@ -416,7 +430,7 @@ func init() {
 		ID:    "C06",
 		Level: "exploration",
 		Rule: "each run is a script of 1–5 probes `try { log(bK); <context>(<site>); log(aK) } catch e { log(cK, isError(e)) } finally { log(fK) }`; site ∈ {host function, host object BinaryOp/IndexGet/IndexSet/Call/CallName/String/Equal/IsFalsy/Iterate/Next/Value, VM remainder by zero}; " +
-			"context ∈ {plain, callee at depth 1–300, child VM, child of child, finally with pending return, catch, frame array at 1000–1029, value stack at 1990–2039 (wide literal), 240-argument calls nested 1–8, strings.Map callback}; ≤2 sites per run panic (string, error, runtime.Error, struct payload) or return an error. " +
+			"context ∈ {plain, callee at depth 1–300, child VM, child of child, finally with pending return, catch, frame array at 1000–1029, value stack at 1990–2039 (wide literal), 240-argument calls nested 1–8, strings.Map callback, unbounded recursion whose frames catch the frame overflow, a try statement inside the function that runs on the child VM, value-stack exhaustion by recursion under an active handler}; ≤2 sites per run panic (string, error, runtime.Error, struct, typed-nil error pointer payload) or return an error. " +
 			"Oracles: recover() around Run sees nothing; a run that returns a value entered each struck probe's catch and finally exactly once and skipped the statement after the site, and equals the twin run in which the host returns the same text as an error; after Clear the same VM runs the fault-free script and a fixed script like a new VM. " +
 			"Non-trivial = a fault fired (or a VM-internal panic site exists); distinct = distinct (context/site vector, fault table).",
 		Assumptions: []string{"a panic may legitimately end the run with an error instead of reaching a handler: only value-returning runs are compared", "memory-exhausting inputs are not generated"},
